@@ -95,6 +95,17 @@ func (e *Env) Perturb(r *rng.R, t *spec.Target, o spec.Out, kind string) string 
 		_ = os.RemoveAll(abs)
 		_ = os.WriteFile(abs, []byte("i am a file\n"), 0644)
 		name = "file-where-dir-should-be"
+	case "modified+chmod":
+		if o.Kind != "file" {
+			return ""
+		}
+		fi, err := os.Stat(abs)
+		if err != nil {
+			return ""
+		}
+		_ = os.WriteFile(abs, []byte("modified by harness, mode flipped\n"), fi.Mode())
+		_ = os.Chmod(abs, fi.Mode()^0111)
+		name = "out-modified-and-exec-bit-flipped"
 	case "chmod":
 		if o.Kind != "file" {
 			return ""
